@@ -3,6 +3,8 @@ from .. import core, hist
 from ..gen import KEY_POOL, hx, rng_for
 
 ENGINES = ["memkv", "badger", "tikv", "metrics-badger"]
+# range bounds of the form key+\x00: order facts (C10) lifted to the range read
+EXTRA_PROP_MODULES = [("KB.Props.C03Bounds", "KB.C03Bounds")]
 
 
 def gen_case(seed, i, engine, n_ops):
@@ -11,14 +13,58 @@ def gen_case(seed, i, engine, n_ops):
     sh = hist.Shadow()
     lines = [hist.cfg_line(engine)]
     rounds = r.randint(2, 4)
+    floor = hist.INIT
     for _ in range(rounds):
         lines += hist.gen_writes(r, sh, n_ops // rounds, keys)
-        lines += hist.gen_reads(r, sh, n_ops // (2 * rounds), keys)
+        lines += hist.gen_reads(r, sh, n_ops // (2 * rounds), keys, succ_b=True)
+        if r.random() < 0.5:
+            # a client paging through a range (continue key = lastKey+\x00), at the current or at an old revision
+            lines += hist.gen_pages(r, sh, keys, rev=r.choice([0, 0, r.randint(floor, sh.dealt)]))
         if r.random() < 0.3:
             # a compaction (increasing revisions only: C08 owns the other orders), then re-reads
-            lines.append("compact %d" % r.randint(hist.INIT, sh.dealt))
-    lines += hist.gen_reads(r, sh, n_ops // 2, keys)
+            floor = max(floor, r.randint(hist.INIT, sh.dealt))
+            lines.append("compact %d" % floor)
+    lines += hist.gen_reads(r, sh, n_ops // 2, keys, succ_b=True)
+    lines += hist.gen_pages(r, sh, keys)
     return core.Case("backend", lines, {"engine": engine})
+
+
+def bounds_case(seed, i, engine):
+    """Range bounds of the form key+\x00 (/repo 146f0bb) and writes without a value (/repo f2a549c), deterministically:
+    paging with every page size through prefix-related keys (a key, its extension, its sibling), at the current and at an
+    old revision; the single-key range [k, k\x00) of live, deleted and missing keys; counts over such bounds; empty-value
+    creates / updates, which must be refused alike and change nothing."""
+    from ..gen import PREFIX
+    r = rng_for(seed, "c03b/%d" % i)
+    keys = [b"/r/a", b"/r/a/b", b"/r/a0", b"/r/a\xff", b"/r/b", b"/r/b/c", b"/r/c"]
+    r.shuffle(keys)
+    keys = keys[:r.randint(4, 7)]
+    sh = hist.Shadow()
+    lines = [hist.cfg_line(engine)]
+    lines += hist.gen_writes(r, sh, 14, keys, values=[b"v1", b"v2", b"v3"], p_ok=0.9)
+    old = sh.dealt
+    lines += hist.gen_writes(r, sh, 8, keys, values=[b"w1", b"w2"], p_ok=0.9)
+    lo, hi = PREFIX + b"/", PREFIX + b"0"
+    for rev in (0, old):
+        for n in (1, 2, 3):
+            lines += hist.gen_pages(r, sh, keys, rev=rev, n=n)
+        for k in keys + [b"/r/zz"]:
+            lines.append("list %s %s %d 0" % (hx(k), hx(hist.succ(k)), rev))              # exactly k (or nothing)
+            lines.append("list %s %s %d 0" % (hx(hist.succ(k)), hx(hi), rev))               # everything after k, not k
+            lines.append("list %s %s %d 1" % (hx(lo), hx(hist.succ(k)), rev))               # ... up to and including k
+    for k in keys:
+        lines += ["count %s %s" % (hx(hist.succ(k)), hx(hi)), "count %s %s" % (hx(lo), hx(hist.succ(k))),
+                  "count %s %s" % (hx(k), hx(hist.succ(k)))]
+    # writes without a value: refused before a revision is dealt, nothing changes (all engines alike)
+    live = [k for k in keys if sh.keys.get(k, (0, False))[1]]
+    dead = [k for k in keys if k not in live] + [b"/r/zz"]
+    lines.append("rev")
+    for k in dead[:2]:
+        lines += ["create %s -" % hx(k), "rev", "update %s - 0" % hx(k), "rev", "get %s 0" % hx(k)]
+    for k in live[:2]:
+        lines += ["update %s - %d" % (hx(k), sh.keys[k][0]), "rev", "create %s -" % hx(k), "rev", "get %s 0" % hx(k)]
+    lines += ["list %s %s 0 0" % (hx(lo), hx(hi)), "create %s %s" % (hx(b"/r/zz"), hx(b"x")), "rev", "list %s %s 0 0" % (hx(lo), hx(hi))]
+    return core.Case("backend", lines, {"engine": engine, "kind": "bounds"})
 
 
 def iterfault_case(seed, i, engine):
@@ -49,6 +95,29 @@ def tombstone_witness(engine):
 
 def check(rep, tier, seed):
     n_hist, n_ops = (48, 60) if tier == "quick" else (1600, 120)
+    # the deterministic bound / empty-value scripts first (cheap and telling): the run stops at the first violation they
+    # confirm — an oracle hit that reproduces when the script is run again alone — before the random histories are run at
+    # all (on a tree where model and implementation differ every script costs its expected-guided waits)
+    first = [bounds_case(seed, i, ENGINES[i % len(ENGINES)]) for i in range(8 if tier == "quick" else 64)]
+    core.run_cases(first, confirm=False)
+    for c in first:
+        hit = hist.check_reads(c)
+        if hit:
+            c2 = core.Case(c.suite, c.lines, c.meta).run()
+            hit2 = hist.check_reads(c2)
+            if hit2 and hit2[1] == hit[1]:
+                rep.count_case(c2)
+                if core.handle_oracle_hit(rep, "C03", hit2[1].replace("=", ""), c2, hit2[0], hit2[1]):
+                    return
+    for c in first:
+        rep.count_case(c)
+    differing = [c for c in first if c.diff() is not None][:3]
+    if differing:
+        core.run_cases(differing)           # re-run alone (a timing artefact does not reproduce)
+    for c in differing:
+        if c.diff() is not None:
+            core.handle_diff(rep, "C03", "correspondence", c)
+            return
     cases = [gen_case(seed, i, ENGINES[i % len(ENGINES)], n_ops) for i in range(n_hist)]
     cases += [tombstone_witness(e) for e in ENGINES[:3]]
     # reads while writes are in flight (applied by the engine but not yet readable): scheduled executions
@@ -61,5 +130,8 @@ def check(rep, tier, seed):
     if core.judge(rep, "C03", cases, hist.check_reads, shrink_fn=lambda x: hist.check_reads(x) is not None):
         return
     rep.assumptions += ["reads at revisions the node has reported readable (<= committed) and >= compaction floor",
-                        "non-empty values; count with EnableEtcdCompatibility=true",
+                        "range bounds: keys over the alphabet and their successors key+\\x00 (continue key of a paginated list, end of a "
+                        "single-key range), judged on raw keys by the MVCC replay",
+                        "non-empty values (a write without a value must be refused on every engine alike, consuming no revision); "
+                        "count with EnableEtcdCompatibility=true",
                         "engines: memkv, badger, tikv mock cluster, metrics wrapper over badger"]
